@@ -6,6 +6,8 @@ CONSTANTS
   SignerSets <- Sets2
   MaxBurns = 3
   MaxMints = 1
+  MaxBlocks = 1
+  MaxOps = 99
   Merger = "overwrite"
   TicketStore = "first"
   BurnsFirst = FALSE
